@@ -581,8 +581,9 @@ class ULPITransmitTranslator(Elaboratable):
 
         with m.FSM(domain="usb") as fsm:
 
-            # Mark ourselves as busy whenever we're not in idle.
-            m.d.comb += self.busy.eq(~fsm.ongoing('IDLE'))
+            # Mark ourselves as busy whenever we're not in idle -- or whenever we're presenting a transmit
+            # command and waiting for the PHY to accept it, as we own the data lines from that point on.
+            m.d.comb += self.busy.eq(~fsm.ongoing('IDLE') | self.ulpi_out_req)
 
             # IDLE: our transmitter is ready and
             with m.State('IDLE'):
@@ -615,6 +616,11 @@ class ULPITransmitTranslator(Elaboratable):
                     # Once the PHY has accepted the command byte, we're ready to move into our main transmit state.
                     with m.If(self.ulpi_nxt):
                         m.next = 'TRANSMIT'
+
+                # If we can't (or can no longer) start a transmission, release the data lines, so a
+                # register operation that has claimed the bus isn't locked out by a stale request.
+                with m.Else():
+                    m.d.usb += self.ulpi_out_req.eq(0)
 
 
             # TRANSMIT: we're in the body of a transmit; the UTMI and ULPI interface signals
